@@ -80,6 +80,10 @@ CLAIMED = {
    technique="enumeration of genuine sessions over the mechanism matrix and, per session, of every evidence field x the value-changing mutation set (every bit, zeroed, shortened, extended, other session, +-1, other OIDs), re-serialised by the library's writer and verified offline",
    text="51 (quick) / 150+ genuine live sessions (CA, PACE-CAM, AA-RSA, AA-ECDSA over curves and suites) are exported and verified offline: all verdicts equal the live ones. Every evidence field mutation must make the corresponding verdict unsuccessful (documented joint ChipKaPub+EcadIC replacement asserted to pass); every bit of every data-group file flipped must fail PA or parsing.",
    note="EF.SOD byte sweeps are C01 (unauthenticated wrapper bytes may legitimately change); an appended byte after a complete DER ECDSA signature is representation-only"),
+ "C20": dict(level="model_checking", ref="§4 C20", engine="vcheck20 (vsched + vinstrument)",
+   technique="preemption-bounded exhaustive schedule exploration (CHESS-style, P<=2 quick / 3 thorough) of the real reader/verifier/mobile/cert-pool code under a cooperative scheduler with a sync shim and statement-level yield points injected by a build overlay; sequential-equivalence oracle by brute force over all call orders; plus a separate free-running -race pass",
+   text="Six scenarios (shared reader.Reader, shared verifier.Verifier, shared mobile.Reader, readers+verifier on one certificate pool, PreloadCscaCertPool x3 + Verify, same with a failing loader) with 2-3 logical threads on fresh objects per execution; every schedule with at most 2 preemptions (3 in thorough) at sync granularity and at statement granularity is executed on instrumented copies of the CURRENT sources; each call's result must equal its result in some sequential order of whole calls, the built-in trust store loaders must run exactly once, no deadlock. The same bodies run free on real goroutines under the race detector (200 iterations per scenario).",
+   note="scheduling points are statement boundaries and sync operations of the instrumented packages (reader, verifier, mobile, cms cert pools); the race pass is dynamic detection, not enumeration; a sync type the shim lacks makes the build fail as a harness error"),
 }
 PENDING_REASON = "check still being built (DESIGN.md §4); no claim is made until its machinery exists and is green on the unchanged tree"
 
